@@ -37,6 +37,8 @@ pub struct Case {
     pub exchanges: Vec<(u64, usize, usize, bool)>,
     /// purge calls (time, replica)
     pub purges: Vec<(u64, usize)>,
+    /// how the storage half of purge call i fails, if it does (nothing removed / a prefix / a subset removed and reported)
+    pub purge_faults: Vec<Option<crate::store::Fault>>,
     /// the stores perform their k-th write `pattern[k % len]` simulated ms after being asked (empty = at once)
     pub write_delay: Vec<u64>,
 }
@@ -93,7 +95,22 @@ impl Prop for Cluster {
             purges.push((horizon + 1 + src.below64(100), src.below(n)));
         }
         let write_delay = crate::c02::gen_write_delay(src);
-        Case { n, skew_s, ops, exchanges, purges, write_delay }
+        // one purge in four hits a storage failure (since the seeded change `C08n`); drawn last
+        let purge_faults = purges
+            .iter()
+            .map(|_| {
+                if src.chance(1, 4) {
+                    Some(match src.below(3) {
+                        0 => crate::store::Fault::FailBefore,
+                        1 => crate::store::Fault::Partial(src.below(3)),
+                        _ => crate::store::Fault::Subset(src.word()),
+                    })
+                } else {
+                    None
+                }
+            })
+            .collect();
+        Case { n, skew_s, ops, exchanges, purges, purge_faults, write_delay }
     }
 
     fn run(&self, case: &Case) -> Outcome {
@@ -110,6 +127,7 @@ impl Prop for Cluster {
             })).collect::<Vec<_>>(),
             "extra_exchanges(at_s, receiver, peer, removals_first)": case.exchanges,
             "purges(at_s, replica)": case.purges,
+            "storage_failure_of_purge": case.purge_faults.iter().map(|f| f.map(|f| format!("{:?}", f))).collect::<Vec<_>>(),
             "store_write_delay_ms_per_call": case.write_delay,
         })
     }
@@ -130,7 +148,7 @@ impl Prop for Cluster {
 enum Ev {
     Deliver { op: usize, to: usize },
     Exchange { r: usize, q: usize, removal_first: bool },
-    Purge { r: usize },
+    Purge { r: usize, fault: Option<crate::store::Fault> },
 }
 
 fn stamp_of(case: &Case, i: usize) -> Stamp {
@@ -161,8 +179,8 @@ fn timeline(case: &Case, with_purges: bool) -> Vec<Ev> {
         push(*t, Ev::Exchange { r: *r, q: *q, removal_first: *rf }, &mut evs);
     }
     if with_purges {
-        for (t, r) in &case.purges {
-            push(*t, Ev::Purge { r: *r }, &mut evs);
+        for (i, (t, r)) in case.purges.iter().enumerate() {
+            push(*t, Ev::Purge { r: *r, fault: case.purge_faults.get(i).copied().flatten() }, &mut evs);
         }
     }
     evs.sort_by_key(|(t, s, _)| (*t, *s));
@@ -238,11 +256,13 @@ async fn play(case: &Case, with_purges: bool) -> (Vec<Docs>, usize) {
                 }
             },
             Ev::Exchange { r, q, removal_first } => exchange(&groups, &stores, r, q, removal_first).await,
-            Ev::Purge { r } => {
+            Ev::Purge { r, fault } => {
+                stores[r].inner.lock().purge_fault = fault;
                 let before = stores[r].metadata(KS).values().filter(|(_, t)| *t).count();
                 let mailbox = groups[r].get_or_create_keyspace(KS).await;
                 let _ = mailbox.send(e2::msg_purge()).await;
                 let after = stores[r].metadata(KS).values().filter(|(_, t)| *t).count();
+                stores[r].inner.lock().purge_fault = None;
                 purged += before.saturating_sub(after);
             },
         }
